@@ -263,7 +263,7 @@ def classify_dilute(c, solute, conc, solvent):
     t = R.per(solvent, num) if solvent == solute else 0.0
     b = R.per(solvent, den)
     rel = (value - c0) / c0
-    relq = 4 * cq / value + 1e-6 + K * cf.q * 4 / max(c.contents[solute], cf.q)
+    relq = 4 * cq / value + 1e-9 + K * cf.q * 4 / max(c.contents[solute], cf.q)
     if rel > relq:
         return 'infeasible', 'above_current', 0.0, (value, num, den)
     if rel > -relq:
